@@ -105,6 +105,8 @@ func ReceiveDirectInvoke(w http.ResponseWriter, r *http.Request, token interop.T
 	now := metering.Monotime()
 
 	MaxDirectResponseSize = interop.MaxPayloadSize
+	// like the payload limit, the response mode of an earlier request must not leak into this one
+	InvokeResponseMode = interop.InvokeResponseModeBuffered
 	if maxPayloadSize := r.Header.Get(MaxPayloadSizeHeader); maxPayloadSize != "" {
 		if n, err := strconv.ParseInt(maxPayloadSize, 10, 64); err == nil && n >= -1 {
 			MaxDirectResponseSize = n
